@@ -271,11 +271,8 @@ func cmdVC(args []string) int {
 		}
 	}
 	for _, tr := range trs {
-		for _, c := range tr.covers {
-			r := solve(tr.script(c.Goal, false), *timeout, []string{"z3-new", "cvc5"})
-			if r.Status != "sat" {
-				fmt.Printf("VACUOUS? %s: cover %q is %s\n", tr.topShort, c.Sig, r.Status)
-			}
+		if st := coverStatus(tr, *timeout); st != "sat" {
+			fmt.Printf("VACUOUS? %s: no return shown reachable (%s)\n", tr.topShort, st)
 		}
 		if *verbose {
 			var us []string
@@ -324,11 +321,8 @@ func runCheck(prop, tier string) (*checkRun, error) {
 	problems = append(problems, immProblems...)
 	// vacuity covers
 	for _, tr := range trs {
-		for _, c := range tr.covers {
-			r := solve(tr.script(c.Goal, false), timeout, []string{"z3-new", "cvc5"})
-			if r.Status == "unsat" {
-				problems = append(problems, fmt.Sprintf("vacuous contract: no return of %s is reachable under its preconditions", tr.topShort))
-			}
+		if st := coverStatus(tr, timeout); st == "unsat" {
+			problems = append(problems, fmt.Sprintf("vacuous contract: no return of %s is reachable under its preconditions", tr.topShort))
 		}
 	}
 	return &checkRun{prop: prop, tier: tier, results: results, problems: problems, trs: trs, missing: missing, engine: e}, nil
@@ -373,7 +367,9 @@ func cmdCheck(args []string) int {
 	prop := args[0]
 	fs := flag.NewFlagSet("check", flag.ExitOnError)
 	tier := fs.String("tier", "quick", "quick|thorough")
+	kfjson := fs.Bool("kf-json", false, "dev: print unlisted failing sites as known-finding JSON entries")
 	fs.Parse(args[1:])
+	printKF = *kfjson
 	if t := os.Getenv("VERIF_TIER"); t != "" && *tier == "quick" && (t == "quick" || t == "thorough") {
 		*tier = t
 	}
@@ -389,6 +385,8 @@ func cmdCheck(args []string) int {
 	}
 	return report(cr, seed, start)
 }
+
+var printKF bool
 
 func report(cr *checkRun, seed int, start time.Time) int {
 	prop := cr.prop
@@ -472,6 +470,10 @@ func report(cr *checkRun, seed int, start time.Time) int {
 			}
 		}
 		for _, sr := range newFail {
+			if printKF {
+				b, _ := json.Marshal(KnownFinding{Property: prop, Obligation: name, Site: sr.Site.Sig, What: "TODO"})
+				fmt.Println("KFJSON " + string(b) + ",")
+			}
 			violations++
 			exit1 := writeReplay(cr, r, sr)
 			fmt.Println(exit1)
@@ -598,4 +600,22 @@ func truncate(s string, n int) string {
 		return s[:n] + "...[truncated]"
 	}
 	return s
+}
+
+// coverStatus: "sat" if some return is reachable under the preconditions, "unsat" if all tried covers are unsat.
+func coverStatus(tr *Tr, timeout int) string {
+	st := "unsat"
+	for _, c := range tr.covers {
+		r := solve(tr.script(c.Goal, false), timeout, []string{"z3-new", "cvc5"})
+		if r.Status == "sat" {
+			return "sat"
+		}
+		if r.Status != "unsat" {
+			st = r.Status
+		}
+	}
+	if len(tr.covers) == 0 {
+		return "no-returns"
+	}
+	return st
 }
